@@ -18,7 +18,7 @@ Only the places where fragments are FILTERED, ASSIGNED, MERGED or EMITTED are mi
   `layout.(*BlockDetector).groupLinesIntoBlocks`                → `segment` (one sweep shape)
 * `layout.(*BlockDetector).mergeOverlappingBlocks` / `mergeBlocks` / `validateBlocks`
                                                                 → `mergeAll`, `validateBlocks`
-* `layout.(*Analyzer).buildElementTree`                         → `elementTree`
+* `layout.(*Analyzer).buildElementTree` / `paragraphNotShown`   → `elementTree`, `remainingPars`
 * `tabula.(*Extractor).assembleText`, `extractPreserveLayout`,
   `extractByColumn`, `extractWithParagraphs`                    → `assembleText`, `preserveLayout`
                                                                   (any padding), `preserveLayoutGo`
@@ -36,8 +36,9 @@ The model follows the code after the C09 fixes: the last column is closed on the
 fragment outside every interval goes to the outermost column (740a6d9); a too-narrow column is
 merged into its neighbour (395abf8); narrow lines and small blocks are dropped only when they
 carry no visible text (0432d47, 8996d0b). `validateColumnsOld`/`buildLinesOld` are the
-pre-fix versions, kept for the counterexample theorems. `elementTree` reproduces the recorded
-finding (paragraph suppression by box overlap).
+pre-fix versions, kept for the counterexample theorems. `elementTree` follows the repair 8ee0e52
+(coverage decided by fragment identity); `elementTreeOld` is the tree before it (paragraph
+suppression by box overlap), kept for the pinned counterexamples.
 -/
 namespace Tabula.Layout
 
@@ -449,14 +450,45 @@ structure Elem where
   ids : List Nat
 deriving DecidableEq, Repr
 
-/-- is paragraph `p` suppressed? (`consumedParaIndices`) -/
+/-- was paragraph `p` suppressed by the tree before the repair? (`consumedParaIndices`) -/
 def consumed (ov : Box → Box → Bool) (hs ls : List Elem) (p : Elem) : Bool :=
   (hs ++ ls).any fun e => ov e.box p.box
 
-/-- `buildElementTree` before the final reordering: headings, lists, then the paragraphs
-that no heading or list box overlaps -/
-def elementTree (ov : Box → Box → Bool) (hs ls ps : List Elem) : List Elem :=
+/-- `buildElementTree` BEFORE the repair 8ee0e52 (kept for the pinned counterexamples): headings,
+lists, then the paragraphs that no heading or list box overlaps -/
+def elementTreeOld (ov : Box → Box → Bool) (hs ls ps : List Elem) : List Elem :=
   hs ++ ls ++ ps.filter (fun p => !consumed ov hs ls p)
+
+/-- the inner loop of `paragraphNotShown` on fragment ids: `(rest, shown')` - the ids of a
+paragraph that the multiset `shown` does not hold, in their order; an id found in `shown` is
+taken off it (`shown[f]--`) -/
+def notShown : List Nat → List Nat → List Nat × List Nat
+  | shown, [] => ([], shown)
+  | shown, i :: r =>
+    if i ∈ shown then notShown (shown.erase i) r
+    else ((notShown shown r).1.cons i, (notShown shown r).2)
+
+/-- the paragraph loop of `buildElementTree` with `paragraphNotShown`: a paragraph that keeps all
+its fragments is emitted as it is, one that keeps none is dropped, one that keeps some is emitted
+with the remaining ids and the box `rbox p rest` of what remains (an input) -/
+def remainingPars (rbox : Elem → List Nat → Box) : List Nat → List Elem → List Elem
+  | _, [] => []
+  | shown, p :: r =>
+    let q := notShown shown p.ids
+    if q.1.length == p.ids.length then ⟨p.box, q.1⟩ :: remainingPars rbox q.2 r
+    else if q.1.isEmpty then remainingPars rbox q.2 r
+    else ⟨rbox p q.1, q.1⟩ :: remainingPars rbox q.2 r
+
+/-- the headings `buildElementTree` emits: not those whose fragments are all shown by a list
+(`allFragmentsShown`: the paragraph is an item of that list) -/
+def shownHeadings (hs ls : List Elem) : List Elem :=
+  hs.filter fun h => h.ids.isEmpty || !(h.ids.all fun i => (ls.flatMap (·.ids)).contains i)
+
+/-- `buildElementTree` before the final reordering (after the repair 8ee0e52): the headings that
+are not list items, the lists, then of every paragraph the fragments that none of these shows -/
+def elementTree (rbox : Elem → List Nat → Box) (hs ls ps : List Elem) : List Elem :=
+  shownHeadings hs ls ++ ls ++
+    remainingPars rbox (ls.flatMap (·.ids) ++ (shownHeadings hs ls).flatMap (·.ids)) ps
 
 /-! ## Text assembly (`extractor.go`) -/
 
